@@ -87,15 +87,16 @@ func roundTripX(c Case, exclude bool) (outcome, error) {
 		return outcome{status: status, p: p}, err
 	}
 	// the documented alternative elements: Tag(map) for conventional struct tags, Values(Dict) for keyed
-	// composite literals whose keys are already in rendering order
+	// composite literals whose keys are already in rendering order, Int() / Error() / Nil() ... for
+	// predeclared names, Append(...) / Len(x) / Make(...) ... for calls of built-in functions
 	alt := &recipe.Decisions{Draw: func(n int) int { return n - 1 }}
-	if q, st, _ := rtpkg.Translate(c.Name, []byte(c.Src), rootFor(c.Root), alt, true); st == rtpkg.OK && q.Stats.AltTag+q.Stats.AltDict > 0 {
+	if q, st, _ := rtpkg.Translate(c.Name, []byte(c.Src), rootFor(c.Root), alt, true); st == rtpkg.OK && q.Stats.AltTag+q.Stats.AltDict+q.Stats.AltIdent > 0 {
 		out, err := rtpkg.Render(&recipe.Builder{}, q.Recipe)
 		if err != nil {
-			return outcome{status: status, p: p}, fmt.Errorf("File.Render failed for a valid program (struct tags through Tag, keyed literals through Dict): %s", rtpkg.Short(err.Error(), 1200))
+			return outcome{status: status, p: p}, fmt.Errorf("File.Render failed for a valid program (struct tags through Tag, keyed literals through Dict, predeclared names and built-in calls through their own constructs): %s", rtpkg.Short(err.Error(), 1200))
 		}
 		if err := rtpkg.Compare(q.AST, out); err != nil {
-			return outcome{status: status, p: p, alt: true}, fmt.Errorf("with struct tags built through Tag and keyed literals through Dict: %v", err)
+			return outcome{status: status, p: p, alt: true}, fmt.Errorf("with struct tags built through Tag, keyed literals through Dict, predeclared names and built-in calls through their own constructs: %v", err)
 		}
 		return outcome{status: status, p: p, alt: true}, nil
 	}
